@@ -261,8 +261,20 @@ fn fresh_server(cfg: &Cfg) -> Option<AnyDec> {
 }
 
 fn authenticated_malformed(seed: u64, i: u64, cfg: &Cfg, role: Role, target: &Addr, now: u64, rng: &mut Rng, rep: &mut Report, decoder: &str) {
+    authenticated_malformed_sampled(seed, i, cfg, role, target, now, rng, rep, decoder, 1, usize::MAX)
+}
+
+/// `one_in` / `limit`: present only every `one_in`-th generated frame and at most `limit` of them (the Miri workload
+/// runs the same generators, but can afford only a handful of frames per decoder).
+#[allow(clippy::too_many_arguments)]
+pub(super) fn authenticated_malformed_sampled(seed: u64, i: u64, cfg: &Cfg, role: Role, target: &Addr, now: u64, rng: &mut Rng, rep: &mut Report, decoder: &str, one_in: u64, limit: usize) {
     let addrs = address_variants(rng);
+    let mut presented = 0usize;
     let mut run = |rep: &mut Report, rng: &mut Rng, mut dec: AnyDec, wire: Vec<u8>, what: &str| {
+        if presented >= limit || (one_in > 1 && !rng.chance(1, one_in)) {
+            return;
+        }
+        presented += 1;
         let cuts = if rng.chance(1, 3) { gen::random_cuts(rng, wire.len(), 3) } else { vec![] };
         rep.evaluations += 1;
         rep.mon("authenticated_malformed_frames", 1);
